@@ -275,6 +275,24 @@ pub fn oracle(f: u32, a: &Args, out: &Args) -> Option<(&'static str, String)> {
             if f == 202 && out[0][0] != 1 && out[0][1] != a[1][0] {
                 return Some(("C15", format!("read_from_buffer moved the offset from {} to {} without returning a frame", a[1][0], out[0][1])));
             }
+            if f == 203 {
+                if let Some(m) = async_oracle(f, a, out) {
+                    return Some(("C15", m));
+                }
+                // three paths agree on (value | error class, bytes consumed) when the source ends with FIN
+                if a[2][0] == 0 {
+                    let sync = super::exec(201, &vec![a[0].clone()]);
+                    let agree = match (sync[0][0], out[0][0]) {
+                        (1, 1) => sync[0][1] == out[0][1] && sync[1] == out[1] && sync[2] == out[2],
+                        (2, 2) => sync[0][2] == out[0][2] && sync[0][1] == out[0][1],
+                        (0, 3) => true,
+                        _ => false,
+                    };
+                    if !agree {
+                        return Some(("C15", format!("one-shot {:?} vs async {:?}", sync[0], out[0])));
+                    }
+                }
+            }
             None
         }
         204 | 254 => {
@@ -331,8 +349,14 @@ pub fn oracle(f: u32, a: &Args, out: &Args) -> Option<(&'static str, String)> {
             if f == 252 && out[0][0] != 1 && out[0][1] != a[1][0] {
                 return Some(("C15", "read_from_buffer moved the offset without returning a header".into()));
             }
+            if f == 253 {
+                if let Some(m) = async_oracle(f, a, out) {
+                    return Some(("C15", m));
+                }
+            }
             None
         }
+        207 | 208 => async_oracle(f, a, out).map(|m| ("C15", m)),
         209 => {
             let mut expect = b2a(&enc(a[0][0]));
             expect.extend(&a[1]);
@@ -343,6 +367,41 @@ pub fn oracle(f: u32, a: &Args, out: &Args) -> Option<(&'static str, String)> {
         }
         _ => None,
     }
+}
+
+/// C15 on one async call: (a) the end-of-stream error distinguishes 'nothing read' from
+/// 'partially read'; (b) the outcome does not depend on chunking / Pending (compare with the
+/// same bytes delivered all at once).
+fn async_oracle(f: u32, a: &Args, out: &Args) -> Option<String> {
+    let tag = out[0][0];
+    let consumed = out[0][1];
+    let term = a[2][0];
+    if tag == 3 {
+        let e = *out[0].last().unwrap();
+        if term == 0 && e == 0 && consumed != 0 {
+            return Some(format!("ImmediateFin reported after {} bytes were consumed", consumed));
+        }
+        if term == 0 && e == 1 && consumed == 0 {
+            return Some("UnexpectedFin reported although nothing was read".into());
+        }
+    }
+    if !a[1].is_empty() {
+        let mut b = a.clone();
+        b[1] = vec![];
+        let base = super::exec(f, &b);
+        // position 2 of 207/208 is the schedule pointer: not comparable
+        let norm = |o: &Args| -> Args {
+            let mut o = o.clone();
+            if f == 207 || f == 208 {
+                o[0][2] = 0;
+            }
+            o
+        };
+        if norm(&base) != norm(out) {
+            return Some(format!("outcome depends on chunking/Pending: {:?} vs all-at-once {:?}", out[0], base[0]));
+        }
+    }
+    None
 }
 
 // ---------------- generators ----------------
@@ -406,6 +465,13 @@ pub fn frame_library(rng: &mut Rng, big: bool) -> Vec<(Vec<u8>, &'static str)> {
         inner.extend(raw_frame(0, &[1, 2]));
         inner.extend(raw_wt(0x41, 0));
         lib.push((raw_frame(id, &inner), "unknown-with-frames-inside"));
+    }
+    if big {
+        for id in [7u64, 0x4242] {
+            for l in [4096usize, 4097, 5000] {
+                lib.push((raw_frame(id, &rng.bytes(l)), "unknown-big-payload"));
+            }
+        }
     }
     for s in session_ids(rng) {
         lib.push((raw_wt(0x41, s), "webtransport"));
@@ -506,7 +572,7 @@ pub fn generate_frame(rng: &mut Rng, thorough: bool) -> Vec<Case> {
         cs.push(Case::new(201, vec![vec![b0]], "exhaustive-1"));
         cs.push(Case::new(203, vec![vec![b0], vec![], vec![0]], "exhaustive-1"));
     }
-    let stride = if thorough { 1 } else { 5 };
+    let stride = if thorough { 1 } else { 11 };
     let mut i = 0u64;
     while i < 65536 {
         let (b0, b1) = (i >> 8, i & 255);
